@@ -70,3 +70,184 @@ func Harness_C18_varint() {
 }
 
 var _ = bytes.Equal
+
+// ---------- record codecs (C01) ----------
+
+// Harness_C01_record_ref: RefRecord.decode(encode(r)) == r for all four kinds.
+// bounds: update index any 64 bit; hash size 20 or 32, all hash bytes symbolic; symref target 1..3 bytes; buffer exactly fitting or up to 3 bytes short
+// covers: done, nofit
+func Harness_C01_record_ref() {
+	hs := []int{20, 32}[VerifChoose(2)]
+	r := &RefRecord{RefName: "n", UpdateIndex: VerifU64()}
+	switch VerifChoose(4) {
+	case 1:
+		r.Value = symBytes(hs)
+	case 2:
+		r.Value = symBytes(hs)
+		r.TargetValue = symBytes(hs)
+	case 3:
+		r.Target = symString(VerifIntRange(1, 3))
+	}
+	need := specVarintLen(r.UpdateIndex) + len(r.Value) + len(r.TargetValue)
+	if r.Target != "" {
+		need += 1 + len(r.Target)
+	}
+	short := VerifIntRange(0, 3)
+	if short > need {
+		return
+	}
+	buf := make([]byte, need-short)
+	n, ok := r.encode(buf, hs)
+	VerifAssert(ok == (short == 0), "fits-iff")
+	if !ok {
+		VerifCover("nofit")
+		return
+	}
+	VerifAssert(n == need, "encoded-len")
+	var got RefRecord
+	m, ok2 := got.decode(buf[:n], "n", r.valType(), hs)
+	VerifAssert(ok2, "decodes")
+	VerifAssert(m == n, "decoded-len")
+	VerifAssert(got.RefName == "n" && got.UpdateIndex == r.UpdateIndex, "name-index")
+	VerifAssert(bytes.Equal(got.Value, r.Value) && bytes.Equal(got.TargetValue, r.TargetValue) && got.Target == r.Target, "payload")
+	VerifAssert((got.Value == nil) == (r.Value == nil) && (got.TargetValue == nil) == (r.TargetValue == nil), "nilness")
+	VerifCover("done")
+}
+
+// Harness_C01_record_log: LogRecord key and value codec round trip.
+// bounds: update index, time any 64 bit; tz any 16 bit; hash size 20/32 all bytes symbolic; name/email/message 0..2 bytes all values; ref name 1..2 bytes (the writer rejects empty names)
+// covers: done, deletion
+func Harness_C01_record_log() {
+	hs := []int{20, 32}[VerifChoose(2)]
+	l := &LogRecord{RefName: symString(VerifIntRange(1, 2)), UpdateIndex: VerifU64()}
+	// key round trip
+	var k LogRecord
+	VerifAssert(k.decodeKey(l.key()), "key-decodes")
+	VerifAssert(k.RefName == l.RefName && k.UpdateIndex == l.UpdateIndex, "key-roundtrip")
+	if VerifChoose(2) == 0 {
+		VerifAssert(l.valType() == 0, "deletion-valtype")
+		var got LogRecord
+		n, ok := got.decode(nil, l.key(), 0, hs)
+		VerifAssert(ok && n == 0 && got.IsDeletion(), "deletion-roundtrip")
+		VerifCover("deletion")
+		return
+	}
+	l.New, l.Old = symBytes(hs), symBytes(hs)
+	l.Name, l.Email = symString(VerifIntRange(0, 2)), symString(VerifIntRange(0, 2))
+	l.Time = VerifU64()
+	l.TZOffset = int16(VerifU16())
+	l.Message = symString(VerifIntRange(0, 2))
+	if l.IsDeletion() {
+		return
+	}
+	buf := make([]byte, 2*hs+3*3+10+2)
+	n, ok := l.encode(buf, hs)
+	VerifAssert(ok, "fits")
+	var got LogRecord
+	m, ok2 := got.decode(buf[:n], l.key(), l.valType(), hs)
+	VerifAssert(ok2, "decodes")
+	VerifAssert(m == n, "decoded-len")
+	VerifAssert(got.RefName == l.RefName && got.UpdateIndex == l.UpdateIndex, "name-index")
+	VerifAssert(bytes.Equal(got.New, l.New) && bytes.Equal(got.Old, l.Old), "hashes")
+	VerifAssert(got.Name == l.Name && got.Email == l.Email && got.Message == l.Message, "strings")
+	VerifAssert(got.Time == l.Time && got.TZOffset == l.TZOffset, "time-tz")
+	VerifCover("done")
+}
+
+// Harness_C01_record_obj: objRecord codec round trip across the 7/8 count boundary.
+// bounds: 0..9 offsets: first any 32 bit (64-bit offsets: record_index, record_ref), then ascending with gaps 1..256; prefix 2 bytes
+// covers: done
+func Harness_C01_record_obj() {
+	cnt := VerifIntRange(0, 9)
+	r := &objRecord{HashPrefix: symBytes(2)}
+	var last uint64
+	for i := 0; i < cnt; i++ {
+		var o uint64
+		if i == 0 {
+			o = uint64(VerifU32())
+		} else {
+			o = last + (uint64(VerifU8()) + 1)
+		}
+		r.Offsets = append(r.Offsets, o)
+		last = o
+	}
+	buf := make([]byte, 10*(cnt+1))
+	n, ok := r.encode(buf, 20)
+	VerifAssert(ok, "fits")
+	var got objRecord
+	m, ok2 := got.decode(buf[:n], string(r.HashPrefix), r.valType(), 20)
+	VerifAssert(ok2, "decodes")
+	VerifAssert(m == n, "decoded-len")
+	VerifAssert(len(got.Offsets) == cnt, "count")
+	// equal first offset and equal successive differences (equivalent to
+	// element-wise equality, and local for the solver)
+	for i := 0; i < cnt && i < len(got.Offsets); i++ {
+		if i == 0 {
+			VerifAssert(got.Offsets[0] == r.Offsets[0], "offset")
+		} else {
+			VerifAssert(got.Offsets[i]-got.Offsets[i-1] == r.Offsets[i]-r.Offsets[i-1], "offset")
+		}
+	}
+	VerifAssert(bytes.Equal(got.HashPrefix, r.HashPrefix), "prefix")
+	VerifCover("done")
+}
+
+// Harness_C01_record_index: indexRecord codec round trip.
+// bounds: offset any 64 bit
+// covers: done
+func Harness_C01_record_index() {
+	r := &indexRecord{LastKey: "k", Offset: VerifU64()}
+	buf := make([]byte, 10)
+	n, ok := r.encode(buf, 20)
+	VerifAssert(ok, "fits")
+	var got indexRecord
+	m, ok2 := got.decode(buf[:n], "k", 0, 20)
+	VerifAssert(ok2 && m == n && got.Offset == r.Offset && got.LastKey == "k", "roundtrip")
+	VerifCover("done")
+}
+
+// ---------- decoders on arbitrary bytes (C18) ----------
+
+// Harness_C18_decoders: every record/key decoder on an arbitrary buffer never panics and never claims to have consumed more than it was given.
+// bounds: buffers of length 0..12 (thorough 0..14), all bytes; prev key 0..2 bytes; value type 0..7; hash size 20 or 2 (so that hashes fit the bound); restart offset any 32 bit
+// covers: done
+func Harness_C18_decoders() {
+	n := VerifIntRange(0, 12+2*VerifTier())
+	buf := symBytes(n)
+	switch VerifChoose(8) {
+	case 0:
+		k, _, _, ok := decodeKey(buf, symString(VerifIntRange(0, 2)))
+		VerifAssert(!ok || (k >= 0 && k <= n), "decodeKey-len")
+	case 1:
+		decodeRestartKey(buf, VerifU32())
+	case 2:
+		k, _, ok := decodeString(buf)
+		VerifAssert(!ok || (k >= 0 && k <= n), "decodeString-len")
+	case 3:
+		var r RefRecord
+		vt := VerifU8()
+		VerifAssume(vt < 8)
+		k, ok := r.decode(buf, "k", vt, []int{20, 2}[VerifChoose(2)])
+		VerifAssert(!ok || (k >= 0 && k <= n), "ref-len")
+	case 4:
+		var l LogRecord
+		vt := VerifU8()
+		VerifAssume(vt < 8)
+		k, ok := l.decode(buf, symString(VerifIntRange(0, 11)), vt, []int{20, 2}[VerifChoose(2)])
+		VerifAssert(!ok || (k >= 0 && k <= n), "log-len")
+	case 5:
+		var o objRecord
+		vt := VerifU8()
+		VerifAssume(vt < 8)
+		k, ok := o.decode(buf, "ab", vt, 20)
+		VerifAssert(!ok || (k >= 0 && k <= n), "obj-len")
+	case 6:
+		var i indexRecord
+		k, ok := i.decode(buf, "k", 0, 20)
+		VerifAssert(!ok || (k >= 0 && k <= n), "index-len")
+	case 7:
+		var l LogRecord
+		l.decodeKey(string(buf))
+	}
+	VerifCover("done")
+}
